@@ -1,12 +1,12 @@
 #!/bin/bash
 # try_seed.sh <patch.diff> <property> [tier]: apply a seeded change to /repo, run the check, undo.
 set -u
-PATCH="$1"; PROP="$2"; TIER="${3:-quick}"
+PATCH="$1"; PROP="$2"; TIER="${3:-quick}"; ONLY="${4:+-only $4}"
 cd /repo || exit 2
 if [ -n "$(git status --porcelain)" ]; then echo "/repo not clean"; exit 2; fi
 git apply "$PATCH" || { echo "patch does not apply"; exit 2; }
 cd /verif
-bin/check "$PROP" --tier "$TIER" > /tmp/try_seed.out 2>&1
+bin/check "$PROP" --tier "$TIER" $ONLY > /tmp/try_seed.out 2>&1
 RC=$?
 git -C /repo checkout -- . 
 echo "exit=$RC"
